@@ -199,6 +199,53 @@ func c13Operators(c *Ctx) {
 		if first == "" {
 			continue
 		}
+		// the token comes from a private helper given the tags as arguments (`return l.opOrOpEqual(A, B), nil`):
+		// its returns are this arm's returns, with the helper's own tests of the following byte
+		if hc, ok := res[0].(*ssa.Call); ok && tag == "" {
+			tagArg := false
+			for _, a := range hc.Call.Args {
+				if _, isC := a.(*ssa.Const); isC && isLangNamed(a.Type(), "TokenTag") {
+					tagArg = true
+				}
+			}
+			if h := hc.Call.StaticCallee(); tagArg && h != nil && p.InLang(h) && h != nx && len(h.Params) == len(hc.Call.Args) && isPrivateTo(p, h, nx) {
+				sub := &renderer{p: p, subst: map[*ssa.Parameter]string{}}
+				for i, prm := range h.Params {
+					sub.subst[prm] = p.Render(hc.Call.Args[i])
+				}
+				FH := FactsOf(h)
+				expanded := false
+				for _, rr := range returnsOf(h) {
+					ht := tokenTagOfText(sub.val(effectiveResults(rr)[0], 0))
+					if ht == "" {
+						continue
+					}
+					expanded = true
+					sec := ""
+					hne := map[string]bool{}
+					for _, rl := range FH.At(rr.Block()).Rels() {
+						k, ok := constInt(rl.y)
+						if !ok || k <= 0 || k > 255 {
+							continue
+						}
+						if pc, ok := rl.x.(*ssa.Call); ok && staticCalleeIs(pc, "(*lang.Lexer).peek") {
+							if rl.op == relEQ {
+								sec = string(rune(k))
+							} else if rl.op == relNE {
+								hne[string(rune(k))] = true
+							}
+						}
+					}
+					got[first+sec] = ht
+					if sec == "" {
+						excl[first] = hne
+					}
+				}
+				if expanded {
+					continue
+				}
+			}
+		}
 		if tag == "" {
 			special[first] = p.Render(res[0])
 			continue
@@ -705,4 +752,19 @@ func c13NumericEvaluation(c *Ctx) {
 
 func abbrevLiteral(s string) string {
 	return strings.ReplaceAll(s, "e.lexer.src[&expr.(*lang.ExprLiteral)#0.token.Pos:(&expr.(*lang.ExprLiteral)#0.token.Len + &expr.(*lang.ExprLiteral)#0.token.Pos)]", "TEXT")
+}
+
+// isPrivateTo: every call site of h (outside tests) is in fn
+func isPrivateTo(p *Program, h, fn *ssa.Function) bool {
+	n := 0
+	for _, cs := range p.CallSitesOf(h) {
+		if p.inTestFile(cs.Parent()) {
+			continue
+		}
+		n++
+		if cs.Parent() != fn {
+			return false
+		}
+	}
+	return n > 0
 }
